@@ -267,6 +267,56 @@ theorem shootScenarioV_eq (c : Int) (hc : c ≤ maxRuneSliceLen) (h2 : Bool) (sc
       | doErr e => exact shootScenario_cons_stop scn _ _ _ (by intro st' h; cases h)
       | bodyErr st e => exact shootScenario_cons_stop scn _ _ _ (by intro st' h; cases h)
 
+theorem shootGrpcScenario_cons_stop (scn : String) (s : GrpcStep) (rest rest' : List GrpcStep)
+    (h : ∀ c, s.outcome ≠ .invoked c .ok) :
+    shootGrpcScenario scn (s :: rest) = shootGrpcScenario scn (s :: rest') := by
+  unfold shootGrpcScenario stepGrpc
+  cases ho : s.outcome with
+  | prepErr => rfl
+  | unknownMethod => rfl
+  | badPayload => rfl
+  | invoked c p =>
+    cases p with
+    | ok => exact absurd ho (h c)
+    | err => rfl
+    | panic => rfl
+
+theorem shootGrpcScenarioV_eq (c : Int) (hc : c ≤ maxRuneSliceLen) (scn : String) (calls : List VCall) :
+    ∀ s : VarState, shootGrpcScenarioV (some c) scn s calls = (GunShot.grpcScenario scn (resolveGrpcV (some c) s calls)).run := by
+  induction calls with
+  | nil => intro s; rfl
+  | cons v rest ih =>
+    intro s
+    unfold shootGrpcScenarioV resolveGrpcV GunShot.run
+    simp only []
+    obtain ⟨r, hr⟩ := preprocess_ok c hc
+      ({ s with request := (v.name, Val.obj []) :: s.request } : VarState).templateVars v.pre
+    rw [hr]
+    cases r with
+    | none =>
+      simp only [List.map_cons]
+      have hk : grpcStepOutcome { v.cfg with kind := .prepFails } v.reply = .prepErr := rfl
+      rw [hk]
+      unfold shootGrpcScenario stepGrpc
+      rfl
+    | some pv =>
+      simp only [List.map_cons]
+      cases ho : grpcStepOutcome v.cfg v.reply with
+      | invoked code p =>
+        cases p with
+        | ok =>
+          have ih' := ih { s with request := (v.name, Val.obj (callEntry pv v.post)) :: s.request }
+          unfold GunShot.run at ih'
+          simp only [] at ih'
+          unfold shootGrpcScenario
+          simp only [stepGrpc]
+          rw [ih']
+        | err => unfold shootGrpcScenario stepGrpc; rfl
+        | panic => unfold shootGrpcScenario stepGrpc; rfl
+      | prepErr => unfold shootGrpcScenario stepGrpc; rfl
+      | unknownMethod => unfold shootGrpcScenario stepGrpc; rfl
+      | badPayload => unfold shootGrpcScenario stepGrpc; rfl
+
 /-- resolving the preprocessors changes nothing of a step but `prepFails` -/
 theorem resolveV_shape (cap : Option Int) (h2 : Bool) (steps : List VStep) :
     ∀ s : VarState, (resolveV cap h2 s steps).map (fun p => (p.1.name, p.1.pps, p.2)) =
